@@ -156,6 +156,13 @@ def gen_case(rng, kind=None):
         start = rng.choice([0.0, 5.0, -5.0, 1000.0, -1000.0, -3e4, 0.001, -0.001])
         lines = ['x1 = LAG_x1 + %r' % c, 'LAG_x1 = x1(k-1)', 'x1(0) = %r' % start, 'LAG_x1(0) = %r' % start]
         lines = [ln.replace('+ -', '- ') for ln in lines]
+        if rng.random() < 0.25:
+            # a time trend written with k: the search's time axis ends at k = -0.0, so the last value is zero
+            lines = ['x1 = %r*k' % c]
+            if rng.random() < 0.5:
+                # x2 is driven by the trend: its step tends to 2*c, so the map (x1's step counted as an input) has L = 1.5
+                lines += ['x2 = 0.5*LAG_x2 + x1', 'LAG_x2 = x2(k-1)']
+                L = 1.5
         ex = []
         if extra.get('trend'):
             lines += ['tr = LAG_tr + 1', 'LAG_tr = tr(k-1)']
